@@ -41,7 +41,7 @@ func TestMain(m *testing.M) {
 	debug.SetGCPercent(50)
 	debug.SetMemoryLimit(640 << 20)
 	evid.Main(m, prop, "fault_enumeration",
-		"rapid histories: 1-2 files at or above the 512 KiB packing threshold (512 KiB..2.2 MiB; noise, short-period and rolling-checksum-period content with repeated chunks; a second file with identical content under another name or a different file), cut by schema.WriteFileFromReader into a staging store and uploaded blob by blob to blobpacked(small=harness store, large=harness store, meta=harness KV) in a drawn order (writer order / file schema blob first / shuffled / reversed, duplicates, final re-upload of the file blob, two files sequential/swapped/interleaved), forced maximum zip size in {default, 300 KiB..1 MiB} (1-5 zips per file). "+
+		"rapid histories: 1-2 files at or above the 512 KiB packing threshold (512 KiB..2.2 MiB; noise, short-period and rolling-checksum-period content with repeated chunks; a second file with identical content under another name or a different file), cut by schema.WriteFileFromReader into a staging store and uploaded blob by blob to blobpacked(small=harness store, large=harness store, meta=harness KV) in a drawn order (writer order / file schema blob first / shuffled / reversed, duplicates, final re-upload of the file blob, two files sequential/swapped/interleaved), forced maximum zip size in {default 16 MiB, 300 KiB..1 MiB, first zip exactly full by the packer's own size estimate -1..+48 bytes} (1-11 zips per file; never smaller than the largest chunk plus schema blobs). "+
 			"A dry run on fresh stores finds the uploads that write a zip and logs their mutating lower-layer calls; for one of them (drawn) the crash point k = 'the k-th mutating lower-layer call and everything after it fails' is enumerated (quick: 3 drawn kinds; thorough: every k, plus k = no crash) and each crashed state is restarted in 3 modes (no recovery, FastRecovery, FullRecovery); then the same drawn suffix runs: re-upload of the file blob, the remaining uploads, RemoveBlobs of packed and loose blobs, re-upload of removed ones, loss of the whole meta index followed by a recovery restart. "+
 			"Oracle at every step: reference-map battery over the logical blobs (fetch, 4 sub-ranges, stat, enumerate, paging; in-flight blob = maybe), schema.FileReader over the store returns the file, OpenWholeRef at 3 offsets is exact whenever it opens and must open after a completed pack and after recovery if it opened before the meta loss, every blob of large is a valid zip (hash, size limits, manifest offsets and hashes, first entry = the file's bytes at the part's offset). Removed blobs must be absent in histories without crash and recovery; after a crash or a re-index they may be visible again iff their bytes are right. "+
 			"non-trivial = at least one zip was stored before the crash point and the crash point is a write of the pack (between two of its writes), or a recovery mode re-indexed >= 1 zip; distinct = FNV-64 of (files, upload sequence, zip size, suffix plan, crash point k, restart mode)")
